@@ -265,7 +265,7 @@ func main() {
 		rn.close()
 	}
 
-	nCorpora := f.N(9, 160)
+	nCorpora := f.N(9, 100)
 	perCorpus := f.N(450, 1000)
 	for k := 0; k < nCorpora; k++ {
 		repos := genCorpus(r)
